@@ -127,6 +127,21 @@ func (P) Exec(line string) string {
 			return "bad-op"
 		}
 		return runInv(v[0], v[1], v[2], v[3])
+	case "push":
+		// C18 push <ours> <theirs> <ops>
+		if len(f) != 5 {
+			return "bad-op"
+		}
+		o, err1 := strconv.ParseUint(f[2], 10, 31)
+		t, err2 := strconv.ParseUint(f[3], 10, 31)
+		if err1 != nil || err2 != nil || o <= 60000 || t <= 60000 {
+			return "bad-op"
+		}
+		var ops []string
+		if f[4] != "-" {
+			ops = strings.Split(f[4], ",")
+		}
+		return runPush(uint32(o), uint32(t), ops)
 	case "racerun":
 		// C18 racerun build=.. races=.. mism=..: result of the -race build of this
 		// harness, obtained in Generate (thorough tier).
